@@ -16,6 +16,7 @@ var (
 	rIfaceDeco    = rule("interface.location", "Input / Output variables carry Location or BuiltIn (on the variable or on every member of its Block struct)")
 	rFlatDeco     = rule("interface.flat", "integer and double precision Fragment inputs are decorated Flat")
 	rBuiltinType  = rule("builtin.type", "compute built-in variables have the type the Vulkan environment prescribes")
+	rEPNone       = rule("entrypoint.none", "a module without the Linkage capability has at least one entry point")
 	rEPModel      = rule("entrypoint.model", "execution model is a defined enumerant; entry function has type void()")
 	rEPDup        = rule("entrypoint.duplicate", "no two entry points share execution model and name")
 	rEPIfaceClass = rule("entrypoint.interface-class", "interface ids are module-scope variables (Input/Output only before 1.4), listed once")
@@ -464,6 +465,9 @@ func (v *validator) entryPoints() {
 	}
 	names := map[nk]bool{}
 	isEP := map[uint32]bool{}
+	if len(eps) == 0 && !m.caps[5] {
+		v.add(rEPNone, -1, "no OpEntryPoint and no Linkage capability")
+	}
 	for _, ep := range eps {
 		isEP[ep.Func] = true
 		if !validModels[ep.Model] {
